@@ -40,6 +40,13 @@ try:
             # on the tree without that fix the check must fail
             variants.append(('E', os.path.basename(d) + '@current', os.path.join(d, 'patch.diff')))
             variants.append(('N', os.path.basename(d) + '@without-' + meta['neutralised_by'], os.path.join(d, 'patch.diff'), meta['neutralised_by']))
+    # every repaired defect of this property: with its fix: commit reversed the check must report the construct again
+    fixed = {}
+    for f in json.load(open(os.path.join(VERIF, 'known_findings.json')))['findings']:
+        if f.get('status') == 'fixed' and f['property'] == prop:
+            fixed.setdefault(f['commit'], []).append(f['rule'] + ' ' + f['key'])
+    for c in sorted(fixed):
+        variants.append(('R', 'revert-' + c, None, c, fixed[c]))
     for f in sorted(glob.glob(os.path.join(VERIF, 'corpus', 'equiv', '*.diff'))):
         touched = {l[6:].strip() for l in open(f) if l.startswith('+++ b/')}
         if touched & files:
@@ -48,13 +55,18 @@ try:
         kind, name, patch = v[:3]
         work = os.path.join(tmp, name)
         shutil.copytree(REPO, os.path.join(work, 'repo'), ignore=shutil.ignore_patterns('.git'))
-        if kind == 'N':
+        if kind in ('N', 'R'):
             d = subprocess.run(['git', '-C', REPO, 'show', v[3]], stdout=subprocess.PIPE, text=True).stdout
             open(os.path.join(work, 'fix.diff'), 'w').write(d)
             a = subprocess.run(['patch', '-R', '-p1', '-s', '-f', '-i', os.path.join(work, 'fix.diff')], cwd=os.path.join(work, 'repo'), stdout=subprocess.PIPE, stderr=subprocess.STDOUT, text=True)
             if a.returncode != 0 or not d:
                 shutil.rmtree(work, ignore_errors=True)
                 return (kind, name, 'skipped', 'the fix commit cannot be reversed on the current tree')
+        if kind == 'R':
+            got = findings(os.path.join(work, 'repo'), os.path.join(work, 'out'))
+            shutil.rmtree(work, ignore_errors=True)
+            missing = [k for k in v[4] if k not in got]
+            return (kind, name, 'ok' if not missing else 'FAILED', 'the repaired construct is reported again: ' + '; '.join(v[4])[:200] if not missing else 'with the fix reversed the check does not report ' + '; '.join(missing)[:200])
         a = subprocess.run(['git', 'apply', '--unsafe-paths', '--directory=' + os.path.join(work, 'repo'), patch], cwd='/', stdout=subprocess.PIPE, stderr=subprocess.STDOUT, text=True)
         if a.returncode != 0:
             a = subprocess.run(['patch', '-p1', '-s', '-f', '-i', patch], cwd=os.path.join(work, 'repo'), stdout=subprocess.PIPE, stderr=subprocess.STDOUT, text=True)
@@ -80,12 +92,13 @@ for r in results:
 ev = json.load(open(ev_path))
 ev['coverage']['corpus'] = {
     'seeded_breaks_run': len([r for r in results if r[0] in ('M', 'N') and r[2] != 'skipped']),
+    'fix_reverts_run': len([r for r in results if r[0] == 'R' and r[2] != 'skipped']),
     'equivalent_variants_run': len([r for r in results if r[0] == 'E' and r[2] != 'skipped']),
     'failed': [list(r) for r in failed], 'skipped': [r[1] for r in skipped],
     'samples': [list(r) for r in results[:6]],
-    'rule': 'verdicts relative to the base run on the current tree: a seeded break must add a finding of this property, an equivalent variant must leave the finding set unchanged',
+    'rule': 'verdicts relative to the base run on the current tree: a seeded break must add a finding of this property, an equivalent variant must leave the finding set unchanged, and the tree with a fix: commit reversed must report every construct that commit repaired',
 }
 ev['wall_s'] = round(ev.get('wall_s', 0) + time.time() - t0, 1)
 json.dump(ev, open(ev_path, 'w'), indent=1)
-print('CORPUS %s: %d seeded breaks, %d equivalents, %d failed, %d skipped (%.0fs)' % (prop, ev['coverage']['corpus']['seeded_breaks_run'], ev['coverage']['corpus']['equivalent_variants_run'], len(failed), len(skipped), time.time() - t0))
+print('CORPUS %s: %d seeded breaks, %d fix reverts, %d equivalents, %d failed, %d skipped (%.0fs)' % (prop, ev['coverage']['corpus']['seeded_breaks_run'], ev['coverage']['corpus']['fix_reverts_run'], ev['coverage']['corpus']['equivalent_variants_run'], len(failed), len(skipped), time.time() - t0))
 sys.exit(3 if failed else 0)
